@@ -105,6 +105,8 @@ EXTENSIONS (added for C05/C14/C15; all optional, absent = the behaviour describe
             repeats) with a flush and a pause between them (also switches to the concurrent write/read path).
             gen_body.abort_after: n   the client gives up after n body bytes (no chunked terminator, no answer awaited; response entry
             {complete: False, aborted: True}); the connection is then dropped at once.
+            read_delay_ms: n   (non-pipelined connections) a slow reader: after the request has been written nothing is read from
+            the socket for n ms.
             abort_after: n   (non-pipelined connections) read n bytes of the response, then ABANDON the connection: it is
             dropped at once, nothing is drained and no further request is sent; the response entry is {complete: False,
             aborted: True, read: bytes read, raw: its first 4 KiB}.
@@ -115,6 +117,7 @@ EXTENSIONS (added for C05/C14/C15; all optional, absent = the behaviour describe
             total, and "request_info" lists per complete request {start, head_end, end, head (bytes),
             body_len, body_crc32 (zlib.crc32 of the DECODED body), chunked, chunks}.  Reply "match" then sees
             the request head only.
+            upstream_read_pause_ms: n   (with upstream_capture) a slow host: the mock sleeps n ms after every read of at most 256 KiB.
   helpers   gen_body_bytes(n, seed) -> bytes ; gen_body_crc32(n, seed) -> int ; head_only(raw) -> raw up to and
             including the blank line
 """
